@@ -29,7 +29,7 @@ CONFIG = dict(
                  "Available() is judged only before Terminate (capacity minus held)",
                  "time stamps of different goroutines come from Go's monotonic clock"],
     units=[
-        dict(test="TestC30Sequential", quick=3000, thorough=160000, shards=16),
+        dict(test="TestC30Sequential", quick=3000, thorough=160000, shards=16, shrinktime="2s"),
         dict(test="TestC30Timed", quick=150, thorough=6400, shards=16, shrinktime="1s"),
         dict(test="TestC30Regression", kind="plain"),
     ],
